@@ -271,7 +271,7 @@ for _p in ("C05", "C30"):
     PROPS[_p]["functions_encoded"] = PROPS[_p]["functions_encoded"] + ["E2: csr::CsrSegment::{persist (reverse index), neighbors, incoming_neighbors} + closures "
                                                                        "on segments of <= 3 sources / <= 4 relationships"]
     PROPS[_p]["bounds"] = dict(PROPS[_p]["bounds"])
-    PROPS[_p]["bounds"]["E2 segment shapes"] = ("<= 3 consecutive sources, <= 4 relationships, destinations min_dst+{0,1,2}; 9 layouts quick / up to 400 thorough; "
+    PROPS[_p]["bounds"]["E2 segment shapes"] = ("<= 3 consecutive sources, <= 4 relationships, destinations min_dst+{0,1,2}; 9 layouts quick / up to 150 thorough; "
                                                 "min_src, min_dst (1 <= x < 2^32-16) and all relationship types symbolic; every node id in and next to the id "
                                                 "ranges queried with and without a symbolic relationship-type filter")
     PROPS[_p]["stubs"] = PROPS[_p]["stubs"] + ["E2: encode_offsets/encode_edges/write_blob_pages/encode_meta/Pager::{allocate_page,write_page} -> success; "
@@ -553,7 +553,7 @@ PROPS["C01"]["stubs"] += ["commit: Wal::append / Wal::fsync / IdMap::apply_* / p
 PROPS["C01"]["outside_claim"] = PROPS["C01"].get("outside_claim", []) + ["the index-maintenance phase of commit (it runs before CommitTx is durable and is not logged)"]
 PROPS["C01"]["stubs"] += ["checkpoint_on_close: locks, label snapshot, segment pointer list, root loads opaque; the atomics are symbolic 64-bit cells; "
                           "Wal::rewrite_as_snapshot records its arguments"]
-PROPS["C01"]["bounds"]["replay"] = ("committed lists of 1 transaction x <= 2 records and 2 transactions x <= 1 record (quick), 2 x 2 (thorough); every "
+PROPS["C01"]["bounds"]["replay"] = ("committed lists of 1 transaction x <= 2 records and 2 transactions x <= 1 record (quick), 3 x 1 (thorough; 2 x 2 exceeds 100 000 paths); every "
                                    "WalRecord kind is an alternative for every record; all field values and the checkpoint txid symbolic")
 PROPS["C01"]["stubs"] += ["replay: every IdMap::apply_* / MemTable::* method is a recorder; IdMap::lookup -> None | Some; L0Run::is_empty -> both"]
 PROPS["C01"]["level_text"] = PROPS["C01"]["level_text"].replace(
